@@ -81,7 +81,21 @@ def m_padded_small_year(payload):
             and got[0] % 100 == want[0] % 100 and cur - 50 <= got[0] < cur + 50)
 
 
-MATCHERS = {"m_padded_small_year": m_padded_small_year}
+def m_tzlocal_range(payload):
+    """the round trip fails ONLY by OverflowError, the rendered zone name is one of time.tzname under the
+    case's process time zone (the text resolves to tz.tzlocal), and tzlocal.tzname() cannot serve the
+    expected wall time (Local.tzlocal_raises: a zone with daylight saving time, standard time in force, and
+    the wall time within |dst_saved| of datetime.min / datetime.max)"""
+    inp = payload.get("input")
+    if not (payload.get("kind", "").startswith("round trip") and isinstance(inp, dict) and inp.get("tz")):
+        return False
+    impl, exp = payload.get("impl"), payload.get("expected")
+    if not (impl and exp and impl[0] and list(impl[0]) == ["OverflowError"]):
+        return False
+    return PC.tzlocal_range_hit(PC.opts_from_json(inp.get("opts")), inp["s"], inp["tz"], exp[0])
+
+
+MATCHERS = {"m_padded_small_year": m_padded_small_year, "m_tzlocal_range": m_tzlocal_range}
 # date forms in which the four-digit year is a token of its own that _parse_numeric_token appends as a
 # Decimal (so the "more than two digits => year" rule of _ymd.append is not applied)
 YEAR_AS_NUMBER = {"DMonDY", "DMonthDY", "DDMonY", "DDMonthY"}
@@ -94,6 +108,25 @@ def year_as_number(t):
 
 
 PROVED_DETAIL = {
+    "C02_parse_render_dash_mon": "DD-Mon-YYYY x {date only, ' HH:MM', ' HH:MM:SS'}, all years (helper rdB)",
+    "C02_parse_render_eu_dot": "DD.MM.YYYY x {date only, ' HH:MM', ' HH:MM:SS'}, dayfirst=True, all years (helper rdB)",
+    "C02_parse_render_frac_DSlashYMD": "YYYY/MM/DD{T, space}HH:MM:SS{.,}f, k = 1..9 (helper rdB)",
+    "C02_parse_render_frac_DUS": "MM/DD/YYYY{T, space}HH:MM:SS{.,}f, k = 1..9, yearfirst False (helper rdB)",
+    "C02_parse_render_frac_DDMonY": "DD Mon YYYY HH:MM:SS{.,}f, year >= 100 (helper rdB)",
+    "C02_parse_render_frac_DDMonthY": "DD Month YYYY HH:MM:SS{.,}f, year >= 100 (helper rdB)",
+    "C02_parse_render_frac_DDashMon": "DD-Mon-YYYY HH:MM:SS{.,}f, all years (helper rdB)",
+    "C02_parse_render_frac_DMonDY": "Mon DD, YYYY HH:MM:SS{.,}f, year >= 100 (helper rdB)",
+    "C02_parse_render_frac_DMonthDY": "Month DD, YYYY HH:MM:SS{.,}f, year >= 100 (helper rdB)",
+    "C02_parse_render_frac_DEUDot": "DD.MM.YYYY HH:MM:SS{.,}f, dayfirst=True (helper rdB)",
+    "C02_parse_render_frac_DEU": "DD/MM/YYYY HH:MM:SS{.,}f, dayfirst=True (helper rdB)",
+    "C02_parse_render_iso_local": "YYYY-MM-DD{T, space}HH:MM[:SS] + ' UTC' / ' GMT' where that name IS one of time.tzname "
+                                  "(8 templates): local zone, fold from the two tzname() bits, UTC when the zone does not "
+                                  "report the name; statement about the runs in which tzlocal.tzname() answers",
+    "C02_parse_render_iso_local_lz": "the same 8 templates on parse_lz (failing tz.tzlocal): OverflowError exactly when "
+                                     "tzlocal_raises holds at the expected wall time (F-C02-tzlocal-range), else the round trip",
+    "C02_parse_render_compact_offset": "YYYYMMDD{T, space}HHMM[SS] + {+,-}HH:MM (8 templates), all offsets -23:59..+23:59",
+    "C02_parse_render_compact_offset2": "YYYYMMDD{T, space}HHMM[SS] + {+,-}HH (8 templates)",
+    "C02_parse_render_compact_offset4": "YYYYMMDD{T, space}HHMM[SS] + {+,-}HHMM (8 templates)",
     "C02_parse_render_numeric_date_time": "{YYYY-MM-DD, YYYY/MM/DD} x {T, space} x {HH:MM, HH:MM:SS}, no zone (8 templates), all valid "
                                           "datetimes/defaults, dayfirst=False",
     "C02_parse_render_us_date_time": "MM/DD/YYYY x {T, space} x {HH:MM, HH:MM:SS} (4 templates), dayfirst=yearfirst=False",
@@ -133,6 +166,27 @@ def theorem_for(t):
         return "C02_parse_render_rfc_offset" if OFORMS[o] == "OHHMM" else None
     D, J, T, O = DFORMS[d], JOINERS[j], TFORMS[tf], OFORMS[o]
     jt = (J, T)
+    # ---- helper rdB's families (coq/parse/RenderX*.v)
+    if T == "TFrac" and 1 <= k <= 9:
+        if D == "DIso" and J in ("JT", "JSpace"):
+            if O in ("OHH_MM", "OHH"):
+                return "C02_parse_render_iso_frac_offset_%s_%s" % (J, O)
+            if O == "OHHMM":
+                return "C02_parse_render_iso_frac_offset4_%s" % J
+            if O == "OZ":
+                return "C02_parse_render_iso_frac_utc_%s_OZ" % J
+            if O in ("OUTC", "OGMT"):
+                return "C02_parse_render_iso_frac_utc_%s_%s_%s" % (J, O, "comma" if fl else "dot")
+        if O == "ONone":
+            if D in ("DSlashYMD", "DUS") and J in ("JT", "JSpace"):
+                return "C02_parse_render_frac_" + D
+            if D in ("DDMonY", "DDMonthY", "DDashMon", "DMonDY", "DMonthDY", "DEUDot", "DEU") and J == "JSpace":
+                return "C02_parse_render_frac_" + D
+    if O == "ONone" and jt in (("JNone", "TNone"), ("JSpace", "THM"), ("JSpace", "THMS")):
+        if D == "DDashMon":
+            return "C02_parse_render_dash_mon"
+        if D == "DEUDot":
+            return "C02_parse_render_eu_dot"
     if O == "ONone":
         if D in ("DIso", "DSlashYMD") and J in ("JT", "JSpace") and T in ("THM", "THMS"):
             return "C02_parse_render_numeric_date_time"
@@ -175,6 +229,13 @@ def theorem_for(t):
             return "C02_parse_render_iso_hm_utc"
         if D == "DCompact" and T in ("TCompactHM", "TCompactHMS"):
             return "C02_parse_render_compact_utc"
+    if D == "DCompact" and J in ("JT", "JSpace") and T in ("TCompactHM", "TCompactHMS"):
+        if O == "OHH_MM":
+            return "C02_parse_render_compact_offset"
+        if O == "OHH":
+            return "C02_parse_render_compact_offset2"
+        if O == "OHHMM":
+            return "C02_parse_render_compact_offset4"
     if D == "DIso" and J in ("JT", "JSpace") and T == "THMS" and O in ("OZ", "OUTC", "OGMT"):
         return "C02_parse_render_iso_utc"
     if D == "DIso" and J in ("JT", "JSpace") and T in ("THM", "THMS") and O in ("OHH_MM", "OHH"):
@@ -248,7 +309,21 @@ def main():
         props = {"obligations": 0, "discharged": 0, "theorems": [], "assumptions": {},
                  "cmd": "coqc props/C02.v", "log": build_err.log, "ok": False}
     else:
-        props = C.compile_props(CID)
+        # props/C02.v takes ~1 min (Print Assumptions walks the large proof terms of the template theorems): compile
+        # it in a thread while the differential streams below run (they only need bin/oracle_parse, which
+        # ensure_built has produced); joined before the verdict
+        import threading
+        props_box = {}
+
+        def _compile():
+            try:
+                props_box["props"] = C.compile_props(CID)
+            except Exception as ex:  # pragma: no cover
+                props_box["props"] = {"obligations": 0, "discharged": 0, "theorems": [], "assumptions": {},
+                                      "cmd": "coqc props/C02.v", "log": "compile_props failed: %r" % (ex,), "ok": False}
+        props_thread = threading.Thread(target=_compile)
+        props_thread.start()
+        props = None
     PC.install_watchdog()
     orc = C.Oracle(PC.AREA)
     per_tpl = 4 if tier == "quick" else 160
@@ -272,7 +347,7 @@ def main():
         PC.set_tz(tzname)
         r = C.rng("C02-" + tzname)
         reqs, meta = [], []
-        for rc_ in (reg_cases if tzname == "UTC" else []):
+        for rc_ in [x for x in reg_cases if x.get("tz", "UTC") == tzname]:
             t = tuple(rc_["template"])
             reqs.append((E_RENDER, list(t) + list(rc_["dt"]) + list(rc_["off"]) + list(rc_["default"]) + [rc_.get("cur", cur)]))
             meta.append((t, tuple(rc_["dt"]), tuple(rc_["off"]), tuple(rc_["default"]), rc_.get("cur", cur), "regression"))
@@ -366,6 +441,9 @@ def main():
     PC.set_tz("UTC")
     orc.close()
 
+    if props is None:
+        props_thread.join()
+        props = props_box["props"]
     proved = [n for n in props["theorems"] if n.startswith("C02_parse_render")]
     if not props["ok"] and not verdict.violations:
         verdict.violation({"kind": "broken proof obligation", "theorem_file": "coq/props/C02.v",
@@ -391,7 +469,9 @@ def main():
         "templates_proved_count": sum(1 for th in tpl_thm.values() if th in props["theorems"] and props["ok"]),
         "templates_tested_only_count": sum(1 for th in tpl_thm.values() if not (th in props["theorems"] and props["ok"])),
         "templates_proved": proved,
-        "templates_proved_detail": {n: PROVED_DETAIL.get(n, "") for n in proved},
+        "templates_proved_detail": {n: PROVED_DETAIL.get(n, (
+            "YYYY-MM-DD{T|space}HH:MM:SS{.,}f (k = 1..9) followed by the zone form named in the theorem (helper rdB)"
+            if n.startswith("C02_parse_render_iso_frac_") else "")) for n in proved},
         "templates_tested_only": "every template whose templates_status is 'tested-only' (spec-differential + model "
                                  "correspondence only)",
         "disagreements": stats,
@@ -405,7 +485,22 @@ def main():
                            "round trip differs ONLY in the year AND the returned year is the rendered year pivoted into the "
                            "parserinfo-year window (same last two digits, within -50..+49)",
                 "relation": "matcher is contained in the complement of the guard (year < 100 on those families) and is "
-                            "narrowed to the defect's exact effect, so nothing else hides behind it"}},
+                            "narrowed to the defect's exact effect, so nothing else hides behind it"},
+            "F-C02-tzlocal-range": {
+                "theorem": "C02_parse_render_iso_local_lz (a proved family with a local zone name: round trip iff the guard), "
+                           "C02_tzlocal_transfer (every parse_render statement holds of parse_lz, the model with the "
+                           "failing tz.tzlocal, when tzlocal_raises lz d = false), C02_tzlocal_not_local (no guard when "
+                           "the text does not resolve to the local zone), C02_tzlocal_local_raises + "
+                           "C02_tzlocal_range_refuted (inside the complement parse raises OverflowError)",
+                "guard": "tzlocal_raises lz d = false, i.e. NOT (the local zone has daylight saving time AND standard "
+                         "time is in force at d AND d - dst_saved is outside datetime.min..datetime.max); only for "
+                         "texts whose zone name is one of time.tzname",
+                "matcher": "m_tzlocal_range: the implementation raises OverflowError AND on the model the text resolves "
+                           "to the local zone with the expected wall time (probe run, Local.local_branch_probe) AND the "
+                           "extracted tzlocal_raises is true for (time.timezone - time.altzone, platform tm_isdst, "
+                           "expected wall time)",
+                "relation": "matcher = complement of the guard on local-zone texts, evaluated by the extracted Coq "
+                            "predicate itself"}},
         "known_findings_hit": verdict.known_hits,
         "known_finding_examples": {k: v for k, v in verdict.known_examples.items()},
     }
